@@ -1,6 +1,7 @@
 import Driver.Util
 import Torf.Spec.Verify
-open Lean Torf Torf.Missing Torf.Verify
+import Torf.Spec.VerifyFs
+open Lean Torf Torf.Missing Torf.Verify Torf.VerifyFs
 namespace Driver.C02
 
 def flipMark : Nat := 549755813888   -- 2^39: element (file, off) whose byte was changed
@@ -62,9 +63,84 @@ def verify (j : Json) : Except String Json := do
     ("hyp", jbool (L > 0 && NoBadEmpty sizes disk)),
     ("d10a", jbool (BadEmptyAtBoundary L sizes disk))]
 
+/-! ### the full alphabet of path states (Model/VerifyFs.lean) -/
+
+def fileContent (i n : Nat) (flips : List (Nat × Nat)) : List Nat :=
+  (List.range n).map fun k =>
+    if flips.contains (i, k) then i * elemBase + flipMark + k else i * elemBase + k
+
+/-- state per file: "ok" | "missing" | n | {"k":"file","size":n} | {"k":"gone","errno":e} |
+    {"k":"noopen","stat":n,"errno":e} | {"k":"readerr","size":n,"off":o,"errno":e} -/
+def mkFs (sizes : List Nat) (states : List Json) (flips : List (Nat × Nat)) :
+    Except String (List (FState Nat)) :=
+  (sizes.zip states).zipIdx.mapM fun ((sz, st), i) => do
+    match st with
+    | .str "ok" => pure (.file (fileContent i sz flips))
+    | .str "missing" => pure (.gone ENOENT)
+    | .num n => pure (.file (fileContent i n.mantissa.toNat flips))
+    | st =>
+      let k ← getStr st "k"
+      match k with
+      | "file" => pure (.file (fileContent i ((getOptNat st "size").getD sz) flips))
+      | "gone" => pure (.gone (← getNat st "errno"))
+      | "noopen" => pure (.noOpen (← getNat st "stat") (← getNat st "errno"))
+      | "readerr" =>
+        pure (.readErr (fileContent i ((getOptNat st "size").getD sz) flips) (← getNat st "off")
+          (← getNat st "errno"))
+      | _ => throw s!"bad path state {k}"
+
+def kindStr : ErrKind → String
+  | .read => "read"
+  | .size => "size"
+
+/-- op `c02.verifyfs`: as `c02.verify` over the full alphabet -/
+def verifyfs (j : Json) : Except String Json := do
+  let L ← getNat j "L"
+  let sizes ← getNats j "sizes"
+  let states ← getArr j "disk"
+  let flipsJ ← getArr j "flips"
+  let flips ← flipsJ.mapM fun f => do
+    let a ← f.getArr?
+    if h : a.size = 2 then return ((← a[0].getNat?), (← a[1].getNat?)) else throw "flip must be a pair"
+  let single ← getBool j "single"
+  let pathIsDir ← getBool j "pathIsDir"
+  let fd ← mkFs sizes states flips
+  let orig := mkFiles sizes
+  let stored : List (List Nat) := chunks L orig.flatten
+  let H : List Nat → List Nat := id
+  let (r0, _) := verifyFs H L sizes fd stored false single pathIsDir
+  let (r1, calls) := verifyFs H L sizes fd stored true single pathIsDir
+  let md := mainDisk sizes fd
+  let run := iterItemsFs L sizes fd
+  let errnos : List Json := match run with
+    | none => []
+    | some r => r.items.zipIdx.flatMap fun (it, i) =>
+        it.excs.filterMap fun e => (excErrno fd it e).map fun n => jarr [jnat i, jnat e.1, jnat n]
+  let fault : Json := match run with
+    | some ⟨_, some (f, e)⟩ => jarr [jnat f, jnat e]
+    | _ => Json.null
+  return jobj [
+    ("nocb", resJson r0), ("cb", resJson r1), ("calls", jarr (calls.map callJson)),
+    ("errnos", jarr errnos), ("fault", fault),
+    ("specOk", jbool (SpecOkFs H L sizes fd stored)),
+    ("owed", jarr ((owedFiles sizes fd).map fun (k, o) =>
+      match o with
+      | .read e => jarr [jnat k, jstr "read", jnats (owedErrnos (stateAt fd k) ++ [e])]
+      | .size => jarr [jnat k, jstr "size", jnats []])),
+    ("must", jarr ((badFiles sizes (statDisk fd)).map fun (k, e) => jarr [jnat k, jstr (kindStr e)])),
+    ("bad", jarr ((badFiles sizes md).map fun (k, e) => jarr [jnat k, jstr (kindStr e)])),
+    ("mismatches", jnats (mismatches H L sizes md stored)),
+    ("overlapping", jarr ((List.range stored.length).map fun i => jnats (overlapping L sizes i))),
+    ("pieces", jnat stored.length),
+    ("mayBlank", jarr ((List.range stored.length).map fun i => jbool (mayBlank L sizes md i))),
+    ("hyp", jbool (L > 0 && NoBadEmpty sizes md)),
+    ("noReadErr", jbool (NoReadErr fd)), ("noSilent", jbool (NoSilent sizes fd)),
+    ("d10a", jbool (BadEmptyAtBoundary L sizes md))]
+
 def handle (op : String) (j : Json) : Except String Json :=
   match op with
   | "c02.verify" => verify j
+  | "c02.verifyfs" => verifyfs j
   | _ => throw s!"unknown op {op}"
 
 end Driver.C02
